@@ -10,43 +10,43 @@ ALL = ['C%02d' % i for i in range(1, 21)]
 CLAIMS = {
     'C01': {
         'text': "Engine soundness (C04.sound) and splitter theorems (C02) apply to pformatM = render . layout . toDoc; C01.sorted_perm (key sorting only permutes entries), insertion_order. The hand-written model of every built-in printer (PP/Model/Values.lean) is tied to /repo by exact comparison of the annotated SDoc stream and text of python_to_sdocs on all small value trees over an adversarial leaf alphabet at width=ribbon=1..12 and on seeded random trees x 10-18 widths x ribbons x indents x sort flags; the oracle eval('(' + text + ')') with exact type / NaN / signed-zero / order comparison runs on every implementation output.",
-        'note': 'value-level end-to-end theorem (reader . pformatM = id / token invariance) is not proved yet: the claim rests on C04.sound for the engine, C02 for the splitter, the listed syntactic lemmas about the printer model, the model=code correspondence on SDoc streams, and the CPython oracle run on every implementation output',
+        'note': 'value-level end-to-end theorem (reader . pformatM = id / token invariance) is not proved yet: the claim rests on C04.sound_pformat (unconditional) for the engine, C02 for the splitter, the listed syntactic lemmas about the printer model, the model=code correspondence on SDoc streams, and the CPython oracle run on every implementation output',
         'technique': 'Lean 4 proof (engine + splitter) + differential correspondence of the printer model + eval oracle',
         'design_ref': 'DESIGN.md section 5, C01',
     },
     'C03': {
         'text': "As C01, on built-in values, commented values, subclass instances and pretty_call objects: the oracle compares ast.dump across all layout settings of each value and checks every line's indentation is a multiple of indent; C03.nests_are_indent (the only nest the container printers build uses ctx.indent).",
-        'note': 'value-level end-to-end theorem (reader . pformatM = id / token invariance) is not proved yet: the claim rests on C04.sound for the engine, C02 for the splitter, the listed syntactic lemmas about the printer model, the model=code correspondence on SDoc streams, and the CPython oracle run on every implementation output',
+        'note': 'value-level end-to-end theorem (reader . pformatM = id / token invariance) is not proved yet: the claim rests on C04.sound_pformat (unconditional) for the engine, C02 for the splitter, the listed syntactic lemmas about the printer model, the model=code correspondence on SDoc streams, and the CPython oracle run on every implementation output',
         'technique': 'Lean 4 proof (engine) + differential correspondence + ast oracle',
         'design_ref': 'DESIGN.md section 5, C03',
     },
     'C08': {
         'text': 'C08.wrapper_seq / wrapper_int / wrapper_shape: in the model a subclass instance prints as a call of the class around exactly the document of the underlying built-in value; the model has no input for __repr__/__str__ overrides. Correspondence on instances of 36 generated subclasses (9 bases x plain / __repr__ / __str__ / both) + IntEnum in 6 nesting contexts x layouts; oracle: eval reconstructs class and value. F6, F7, F17 repaired.',
-        'note': 'value-level end-to-end theorem (reader . pformatM = id / token invariance) is not proved yet: the claim rests on C04.sound for the engine, C02 for the splitter, the listed syntactic lemmas about the printer model, the model=code correspondence on SDoc streams, and the CPython oracle run on every implementation output',
+        'note': 'value-level end-to-end theorem (reader . pformatM = id / token invariance) is not proved yet: the claim rests on C04.sound_pformat (unconditional) for the engine, C02 for the splitter, the listed syntactic lemmas about the printer model, the model=code correspondence on SDoc streams, and the CPython oracle run on every implementation output',
         'technique': 'Lean 4 proof (wrapper lemmas) + differential correspondence + eval oracle',
         'design_ref': 'DESIGN.md section 5, C08',
     },
     'C09': {
         'text': 'Correspondence of the comment machinery (commentdoc, sequence_of_docs, build_fncall, dict pairs, top level) on comment/trailing_comment wrappers at every single node of small trees and random nodes of random trees with adversarial texts; oracle: eval equals the uncommented value, same ast across layouts, comment words preserved (tokenize). C09.commentdoc_lines, empty_comment_ignored. Known finding K4 (trailing comments on values that cannot hold one are dropped). F4, F5 repaired.',
-        'note': 'value-level end-to-end theorem (reader . pformatM = id / token invariance) is not proved yet: the claim rests on C04.sound for the engine, C02 for the splitter, the listed syntactic lemmas about the printer model, the model=code correspondence on SDoc streams, and the CPython oracle run on every implementation output',
+        'note': 'value-level end-to-end theorem (reader . pformatM = id / token invariance) is not proved yet: the claim rests on C04.sound_pformat (unconditional) for the engine, C02 for the splitter, the listed syntactic lemmas about the printer model, the model=code correspondence on SDoc streams, and the CPython oracle run on every implementation output',
         'technique': 'differential correspondence + tokenize/eval oracle; Lean lemmas on commentdoc',
         'design_ref': 'DESIGN.md section 5, C09',
     },
     'C10': {
         'text': 'C10.no_limit (None truncates nothing, attaches no comment), large_limit, truncation_text (the comment states len - N). Correspondence and oracle on container trees x max_seq_len in {1..longest+1, None} x widths: eval == first-N truncation at every level, one comment per truncated container with the exact count, None == large limit. F8 repaired.',
-        'note': 'value-level end-to-end theorem (reader . pformatM = id / token invariance) is not proved yet: the claim rests on C04.sound for the engine, C02 for the splitter, the listed syntactic lemmas about the printer model, the model=code correspondence on SDoc streams, and the CPython oracle run on every implementation output',
+        'note': 'value-level end-to-end theorem (reader . pformatM = id / token invariance) is not proved yet: the claim rests on C04.sound_pformat (unconditional) for the engine, C02 for the splitter, the listed syntactic lemmas about the printer model, the model=code correspondence on SDoc streams, and the CPython oracle run on every implementation output',
         'technique': 'Lean 4 lemmas on the truncation arithmetic + differential correspondence + eval oracle',
         'design_ref': 'DESIGN.md section 5, C10',
     },
     'C11': {
         'text': 'C11.depth_zero_placeholder, unlimited_never_zero. Correspondence and oracle on container trees with unique leaves x depth in {0..height+2, None}: exactly the leaves nested in fewer than depth containers appear; depth > height == None. Known findings K2 (None/bool/Ellipsis leaves), K5 (str dict keys at the cut).',
-        'note': 'value-level end-to-end theorem (reader . pformatM = id / token invariance) is not proved yet: the claim rests on C04.sound for the engine, C02 for the splitter, the listed syntactic lemmas about the printer model, the model=code correspondence on SDoc streams, and the CPython oracle run on every implementation output',
+        'note': 'value-level end-to-end theorem (reader . pformatM = id / token invariance) is not proved yet: the claim rests on C04.sound_pformat (unconditional) for the engine, C02 for the splitter, the listed syntactic lemmas about the printer model, the model=code correspondence on SDoc streams, and the CPython oracle run on every implementation output',
         'technique': 'Lean 4 lemmas + differential correspondence + leaf-visibility oracle',
         'design_ref': 'DESIGN.md section 5, C11',
     },
     'C17': {
         'text': 'C17.empty_call, hug_only_exact. Correspondence on objects printed through pretty_call_alt (0-3 positional, 0-2 keyword arguments, nested calls, commented arguments) alone and nested; oracle: eval rebuilds the same callable with arguments in order. Dataclasses / attrs field selection is checked by the oracle section.',
-        'note': 'value-level end-to-end theorem (reader . pformatM = id / token invariance) is not proved yet: the claim rests on C04.sound for the engine, C02 for the splitter, the listed syntactic lemmas about the printer model, the model=code correspondence on SDoc streams, and the CPython oracle run on every implementation output',
+        'note': 'value-level end-to-end theorem (reader . pformatM = id / token invariance) is not proved yet: the claim rests on C04.sound_pformat (unconditional) for the engine, C02 for the splitter, the listed syntactic lemmas about the printer model, the model=code correspondence on SDoc streams, and the CPython oracle run on every implementation output',
         'technique': 'Lean 4 lemmas + differential correspondence + eval oracle',
         'design_ref': 'DESIGN.md section 5, C17',
     },
@@ -111,7 +111,7 @@ CLAIMS = {
         'design_ref': 'DESIGN.md section 5, C07',
     },
     'C04': {
-        'text': "Lean theorems C04.sound / sound_plain (the stack machine's output is a rendering of the document in the reference semantics Lay, for every document, width, ribbon and both strategies), ann_balanced (push/pop well bracketed), render_trim (the renderer only trims trailing whitespace), with lay_normalize (Lay closed under normalisation). The model is tied to /repo by exact comparison of SDoc streams and rendered text on all documents <= 4 (thorough: 5) nodes x 96 configurations plus seeded random documents. The forcing clause for bare hardline is known finding K1.",
+        'text': "Lean theorems C04.sound / sound_plain / sound_str / sound_pformat (the last three without hypothesis: Pr.evalStr_bounded proves the evaluator-size hypothesis for pretty_str's evaluator; the stack machine's output is a rendering of the document in the reference semantics Lay, for every document, width, ribbon and both strategies), ann_balanced (push/pop well bracketed), render_trim (the renderer only trims trailing whitespace), with lay_normalize (Lay closed under normalisation). The model is tied to /repo by exact comparison of SDoc streams and rendered text on all documents <= 4 (thorough: 5) nodes x 96 configurations plus seeded random documents. The forcing clause for bare hardline is known finding K1.",
         'note': "trusted: Lean kernel; model = code only on the explored inputs; ribbon fractions restricted to float-exact ones; FlatChoice lazy normalisation modelled as a pure function",
         'technique': 'Lean 4 proof (soundness w.r.t. inductive reference semantics) + differential correspondence',
         'design_ref': 'DESIGN.md section 5, C04',
